@@ -89,6 +89,44 @@ func init() {
 		}
 		long := fmt.Sprintf("0 NOTE %s\n", strings.Repeat("\xc2\xa0y ", c.N(30000, 300000)))
 		c03all(c, long, "long-line")
+		// more open levels than any fixed table: chains of 98..300 (thorough 2000) nested nodes, with
+		// and without an over-deep line at the bottom
+		deeps := []int{98, 99, 100, 101, 128, 150, 256, 300}
+		if c.Tier == "thorough" {
+			deeps = append(deeps, 1000, 2000)
+		}
+		for _, d := range deeps {
+			var sb strings.Builder
+			for l := 0; l <= d; l++ {
+				fmt.Fprintf(&sb, "%d NOTE level %d\n", l, l)
+			}
+			chain := sb.String()
+			c03all(c, chain, "deep-chain")
+			c03all(c, chain+fmt.Sprintf("%d X over-deep\n", d+5), "deep-chain-over-deep")
+			c03all(c, chain+"1 Y back\n"+fmt.Sprintf("%d Z\n", d), "deep-chain-dedent")
+		}
+		// long files whose offending line is far from the end (early exits with much unread input)
+		tails := []int{10, 200, 300, 700, 2500}
+		if c.Tier == "thorough" {
+			tails = append(tails, 10000, 50000)
+		}
+		bads := []string{"foo bar", "1 HUSB @I1@", "7 X over-deep", "", "@I1@ INDI", "1"}
+		for _, tail := range tails {
+			var tb strings.Builder
+			for i := 0; i < tail; i++ {
+				if i%5 == 0 {
+					fmt.Fprintf(&tb, "0 @N%d@ NOTE n\n", i)
+				} else {
+					fmt.Fprintf(&tb, "1 CONT line %d\n", i)
+				}
+			}
+			for _, bad := range bads {
+				for _, head := range []string{"", "0 HEAD\n1 CHAR UTF-8\n", "0 HEAD\n1 A\n2 B\n"} {
+					c03all(c, head+bad+"\n"+tb.String(), "long-tail-after-bad-line")
+				}
+			}
+			c03all(c, "1 NAME first line at level 1\n"+tb.String(), "long-tail-after-bad-line")
+		}
 		// the command line's decoder options (cmd/gedcom/diff.go)
 		c03CLI(c)
 	}
